@@ -361,7 +361,8 @@ func c04Child(a *ChildArgs) {
 			for _, pair := range [][2]string{
 				{"SELECT a rli\u212ae 'x' FROM t", "SELECT a rlixe 'x' FROM t"}, {"SELECT a ili\u212ae 'x' FROM t", "SELECT a ilixe 'x' FROM t"},
 				{"SELECT GROUP_CONCAT(a \u017feparator ',') FROM t", "SELECT GROUP_CONCAT(a xeparator ',') FROM t"}, {"SELECT a FROM t FOR \u017fhare", "SELECT a FROM t FOR xhare"},
-				{"\u017felect a FROM t", "xelect a FROM t"}, {"SELECT a FROM t WHERE a \u0131n (1)", "SELECT a FROM t WHERE a xn (1)"},
+				{"\u017felect a FROM t", "xelect a FROM t"}, {"SELECT \u017fet FROM t", "SELECT xet FROM t"}, {"SELECT \u0131ndex, \u0131nto FROM t", "SELECT xndex, xnto FROM t"},
+				{"UPDATE t SET value\u017f = 1", "UPDATE t SET valuex = 1"}, {"SELECT u\u017f\u0131ng FROM t", "SELECT uxxng FROM t"}, {"SELECT a AS \u017fhare FROM t", "SELECT a AS xhare FROM t"}, {"SELECT a FROM t WHERE a \u0131n (1)", "SELECT a FROM t WHERE a xn (1)"},
 			} {
 				_, e1 := gosqlx.Parse(pair[0])
 				_, e2 := gosqlx.Parse(pair[1])
